@@ -103,10 +103,57 @@ def run(rep):
     if wrongly or len(cans) not in a:
         raise tlc.MachineryError(f"canary failure: accepted {wrongly}; control accepted={len(cans) in a}")
     rep.extra["canaries_rejected"] = [c[0] for c in cans]
+    part_foreign(rep)
+
+
+def _run_free(job):
+    from harness import choicegen, render
+
+    inp, kw = render.render(job["wb"], "dict")
+    kw.update(job.get("kwargs") or {})
+    res = conv.convert_case({"input": inp, "kwargs": kw, "events": False})
+    ev = {"ev": "choices_free", "status": res["status"], "obs": {"instances": [], "reads": []}, "src": {}}
+    if res["status"] == "ok":
+        ev["obs"] = choicegen.observe_free(res["xform"])
+    return {"tag": job["tag"], "wb": job["wb"], "kwargs": job.get("kwargs"), "res": {k: v for k, v in res.items() if k not in ("events", "xform")}, "trace": [ev]}
+
+
+def part_foreign(rep):
+    """source-free clauses on forms this generator does not produce: the frozen test-suite corpus and decorated TLC structures"""
+    from harness import formgen, suitecorpus
+
+    jobs = [{"wb": j["wb"], "kwargs": j.get("kwargs"), "tag": j["tag"]} for j in suitecorpus.doc_jobs(())]
+    shapes, _ = corpus.gen_shapes("ok", 3)
+    for i, c in enumerate(corpus.pick(shapes, 500 if rep.tier == "quick" else 5000, rep.seed)):
+        jobs.append({"wb": formgen.decorate(c["rows"], seed=rep.seed + i, feat=corpus.ALL_FEAT).wb(), "tag": {"shapes": c["rows"], "decorated": i}})
+    outs = conv.map_cases(_run_free, jobs, chunksize=16)
+    for o in outs:
+        if o.get("status") == "harness_error":
+            raise tlc.MachineryError(o["message"] + "\n" + o.get("tb", ""))
+    sub = [o for o in outs if o["res"]["status"] == "ok"]
+    cfg = corpus._cfg("Trace_Choices.cfg", TRACE_CFG)
+    acc, info = tlc.validate_traces("Trace_Choices", cfg, [o["trace"] for o in sub], shards=8, tag="trc09free")
+    rep.traces_validated += len(acc)
+    rep.extra.setdefault("trace_runs", []).append({"source": "frozen test-suite corpus + decorated structures (source-free clauses)", "forms": len(outs), "traces": len(sub), "accepted": len(acc),
+                                                   "with_instances": sum(1 for o in sub if o["trace"][0]["obs"]["instances"]), "wall_s": round(info["wall"], 1)})
+    for i, o in enumerate(sub):
+        rep.case({"foreign": o["tag"]}, nontrivial=bool(o["trace"][0]["obs"]["instances"]))
+        if i in acc:
+            continue
+        l, clause = info["progress"].get(i, (0, "unexplained_event"))
+        rep.violation(f"{PROP}:{clause}:foreign", f"clause {clause}; form={o['tag']} obs={o['trace'][0]['obs']}"[:500], {"foreign": True, "tag": o["tag"], "wb": o["wb"], "kwargs": o["kwargs"], "clause": clause})
 
 
 def replay(rep, case):
     c = case["case"]
+    if c.get("foreign"):
+        o = _run_free({"wb": c["wb"], "kwargs": c.get("kwargs"), "tag": c.get("tag")})
+        acc, info = tlc.validate_traces("Trace_Choices", corpus._cfg("Trace_Choices.cfg", TRACE_CFG), [o["trace"]], shards=1, tag="replay")
+        rep.traces_validated += len(acc)
+        rep.case({"foreign": c.get("tag")})
+        if 0 not in acc:
+            rep.violation(f"{PROP}:{info['progress'].get(0, (0, '?'))[1]}:foreign", "replay", c)
+        return
     o = _run({"cfg": c["cfg"], "sels": c["sels"], "fmt": c.get("fmt", "dict")})
     cfg = corpus._cfg("Trace_Choices.cfg", TRACE_CFG)
     acc, info = tlc.validate_traces("Trace_Choices", cfg, [o["trace"]], shards=1, tag="replay")
